@@ -39,6 +39,7 @@ def gen_spec(rng):
         # from a `within` placeholder
         spec["p_import"] = True
         spec["p_consts"] = {}
+    spec["q_last"] = rng.random() < 0.4
     spec["classes"].append({"name": "T", "where": "P", "tpl": "type"})
     spec["classes"].append({"name": "Base", "where": "Q" if base_in_q else "P", "tpl": "base"})
     spec["classes"].append({"name": "Mid", "where": "P", "tpl": "mid"})
@@ -150,6 +151,11 @@ def render_split(spec, assign):
         own.append("  constant Real %s = %d;" % (k, v))
     q_own = spec["has_q"] and assign["q_own"]
     q_lines = None
+    if spec.get("q_last"):
+        # P's own classes come before the nested package in P's own file
+        for c in spec["classes"]:
+            if c["where"] == "P" and assign["files"].get(c["name"], 0) == 0:
+                own.append(render_class(spec, c, "  "))
     if spec["has_q"]:
         ql = ["package Q"]
         for k, v in sorted(spec["q_consts"].items()):
@@ -163,7 +169,7 @@ def render_split(spec, assign):
         else:
             own += ["  " + ln for ln in ql]
     for c in spec["classes"]:
-        if c["where"] == "P" and assign["files"].get(c["name"], 0) == 0:
+        if c["where"] == "P" and assign["files"].get(c["name"], 0) == 0 and not spec.get("q_last"):
             own.append(render_class(spec, c, "  "))
     own.append("end %s;" % P)
     result = [("%s.mo" % P, "\n".join(own) + "\n", True)]
@@ -194,7 +200,7 @@ class Engine:
 
     def configs(self, tier, prop):
         if tier == "quick":
-            return [("merge", 260), ("walk", 60), ("threads", 100)]
+            return [("merge", 260), ("walk", 80), ("threads", 100)]
         return [("merge", 12_000), ("walk", 3_000), ("threads", 6_000)]
 
     def chunk_size(self, config, tier):
@@ -240,7 +246,7 @@ class Engine:
                 assign["files"][n] = rng.randint(1, n_parts)
         if not assign["files"] and not (spec["has_q"] and assign["q_own"]):
             assign["files"][names[-1]] = 1
-        return {"kind": config, "spec": spec, "assign": assign, "layout": rng.choice(["flat", "nested", "package_mo"]),
+        return {"kind": config, "spec": spec, "assign": assign, "layout": rng.choice(["flat", "nested", "package_mo", "package_mo"]),
                 # the folder's own name is an input too (blanks, glob metacharacters)
                 "dirname": rng.choice(["lib", "lib", "my lib", "lib [v2]", "run[1]", "a*b?"]),
                 "order_seed": rng.randrange(1 << 30), "perm": None}
